@@ -68,7 +68,7 @@ def hexagon(shape, radius, shift=(0, 0), rotate=False, antialias=True):
             slc = np.clip(inner_radius + 0.5 - rho, 0.0, 1.0)
         else:
             slc = np.ones(shape)
-            slc[rho > inner_radius] = 0
+            slc[rho >= inner_radius] = 0
     
         mask = np.minimum(mask, slc)
 
